@@ -2,4 +2,4 @@
 # usage: tools/regress_seeded.sh [tier]   -- runs, for every seeded change, the quick check of the property it breaks; prints DETECTED/MISSED per change (4 at a time)
 cd "$(dirname "$0")/.."
 tier=${1:-quick}
-ls -d seeded/*/ | xargs -P 4 -I{} bash -c 'd={}; id=$(basename $d); p=${id%%-*}; r=$(tools/try_seeded.sh $d/patch.diff $p '"$tier"' 2>&1 | grep -v conda | grep -E "DETECTED|MISSED|NOT APPLY" | cut -c1-160); echo "$id: $r"'
+ls -d seeded/*/ | xargs -P ${REGRESS_PAR:-4} -I{} bash -c 'd={}; id=$(basename $d); p=${id%%-*}; r=$(tools/try_seeded.sh $d/patch.diff $p '"$tier"' 2>&1 | grep -v conda | grep -E "DETECTED|MISSED|NOT APPLY" | cut -c1-160); echo "$id: $r"'
